@@ -41,6 +41,24 @@ func TestMain(m *testing.M) {
 			"server on odd cases), tokens / freshly answered challenges / replayed answers of each instance shown to the other, tokens forged under every secret close to the "+
 			"target's shown to the target. TestServerQuoting enumerates the syntax dimension completely: every parameter of a valid challenge answer (both flows, all client key "+
 			"types) and of a valid token request x 17 ways of writing it x glued bytes (768 requests, each next to its accepted unaltered control). "+
+			"ENCODINGS of a public key (keyenc_test.go): a public-key parameter is the protobuf message {1: KeyType, 2: Data}; besides the canonical bytes the harness writes the very same key in 15 "+
+			"other ways - an unknown field (varint, bytes, fixed32, fixed64, field numbers 3..15 and 1000..1999) after, before or between the two fields, the fields re-ordered, over-long varints "+
+			"for the type, the length or a tag, the type field twice (same value; a wrong value first - the last one counts), the data field twice, and another form of Data itself (uncompressed / "+
+			"hybrid point for Secp256k1, non-minimal DER length for RSA / ECDSA). In TestServerProvenance 1/4 of the honest sessions are run by a client whose encoder writes its key in such a way "+
+			"(both flows: the key travels as a parameter, or lands in the opaque), and the operator keyenc re-encodes the public-key parameter of any attack request; TestServerReuse does it in 1/6 of "+
+			"its requests; TestClientProvenance lets the harness server claim V's key in such a way (deviation Claim 6). TestServerKeyEncodings enumerates the dimension completely: every client key type "+
+			"x both flows x every way of writing x every engine (378 sessions). The server / client may refuse such a key; whatever is accepted is judged by the provenance oracle, for which the peer ID "+
+			"of a key - known, embedded in an ID, or carried by the request in any encoding - is computed by the harness from the key MATERIAL by the peer-ID spec (canonical protobuf of the "+
+			"standard-library key; identity multihash up to 42 bytes, SHA2-256 otherwise), never by the library's MarshalPublicKey / IDFromPublicKey of a key it parsed: a key written in a non-canonical "+
+			"way proves the ID of the key, never an ID of the bytes. "+
+			"HISTORY / ENGINE (reuse_test.go): every server instance handles its requests through ServerPeerIDAuth.ServeHTTP (4/7 in TestServerProvenance), or through the handshake state machine driven "+
+			"directly (hook p2p/http/auth/export_verif.go) the way ServeHTTP drives it - a new value per request (1/7), or ONE value re-used for all requests of the instance through Reset(), as a "+
+			"pool or the package benchmark do (2/7); all engines are held to the same oracle. TestServerReuse: one deployment (one private key, one HmacKey) served by 1-3 workers, worker 0 a re-used "+
+			"state machine, the others of any engine; 4-12 requests, each to a drawn worker: begin server- / client-initiated, answer any challenge seen so far (latest or any; by its owner or somebody "+
+			"else; for its host or another), use any token received, present any challenge opaque seen so far as bearer token (alone or with key and signature), a token as opaque, a refused request "+
+			"(unparsable, incomplete, one bit of a genuine token / opaque flipped, a signature over another challenge), virtual sleeps of 1 s / past the challenge lifetime / around TokenTTL. The label "+
+			"reuse:X->Y counts what a re-used value had handled just before each request (X, Y in challenge, answer-accepted, token-accepted, parse-error, refused, refused:invalid-HMAC / "+
+			"challenge-expired / token-expired followed by the new challenge). A re-used value that refuses an honest request is not judged (label reused-engine:honest-session-refused-*, 0 on a correct tree). "+
 			"ORACLE (provenance, applied to every request that reaches Next, honest ones included): "+
 			"some value of the header decodes to exactly a token this server issued to the reported peer and not older than TokenTTL, or to "+
 			"exactly a challenge opaque this server minted not more than 5 min ago together with a signature that verifies under the reported "+
@@ -77,7 +95,7 @@ func TestMain(m *testing.M) {
 			"been handed out by that origin; an origin that signed nothing gets no identity attributed, whatever it answers. "+
 			"NON-TRIVIAL = at least one operator / deviation / cross-target / expiry shift applied (TestServerInstances: at least one presentation to a "+
 			"foreign instance or of forged state; TestClientOrigins: at least one call to an origin while the client holds an unexpired proof / token of a "+
-			"DIFFERENT origin; TestServerKeyShapes / TestServerQuoting: every case, they are enumerations of alterations); DISTINCT = distinct (base step, operator+parameter "+
+			"DIFFERENT origin; TestServerKeyShapes / TestServerQuoting: every case, they are enumerations of alterations; TestServerKeyEncodings: every non-canonical way; TestServerReuse: at least one opaque-as-bearer / token-as-opaque / refused request AND a re-used state machine that handled at least two requests); DISTINCT = distinct (base step, operator+parameter "+
 			"list, target relation, host class, sleep class) resp. distinct response-plan list resp. distinct (kind, relation, flow, minter secret mode -> "+
 			"target secret mode / guessed secret, host class) list resp. distinct (origin spellings and kinds, per call: origin, sleep class, request flow, outcome, "+
 			"relation to the origins whose token is held).",
@@ -87,6 +105,8 @@ func TestMain(m *testing.M) {
 		"instances that the application gives the same HmacKey count as one server (one secret): a token or challenge of one is allowed, not required, to be honoured by the other; every instance with an unset HmacKey is a server of its own",
 		"HMAC pads keys shorter than its block with zero bytes, so keys that differ only by trailing zero bytes are ONE secret by the definition of HMAC-SHA256 (named in the property's anchors); generated keys contain no zero byte, which makes 'any differing byte or length' and 'a different secret' the same thing; an empty HmacKey is never generated (an operator error, not a secret)",
 		"syntax: for unquoted values, single quotes, blanks around '=' or inside the quotes, bytes before the opening quote, a trailing tab and a backslash before the closing quote, acceptance and refusal are both allowed (only provenance is judged); bytes after a closing quote within the token, unbalanced, doubled and inner double quotes alter the value (spec grammar key=\"value\": the value is another string, or the token is no parameter), so such a token proves nothing; re-encodings that decode to the same bytes (CR / LF inside base64, alphabet, padding) are not alterations",
+		"the peer ID of a key is the one the libp2p peer-ID spec derives from the canonical encoding of the key material; x509.MarshalPKIXPublicKey (RSA, ECDSA), the raw Ed25519 bytes and the compressed Secp256k1 point, taken from the standard-library key behind the libp2p key (crypto.PubKeyToStdKey), are trusted to be that material (the enumeration checks that they agree with the library on keys that never were on the wire)",
+		"the direct engines reproduce around the state machine what ServeHTTP does (host checks, 400 / 401 mapping, new challenge after invalid HMAC / expired state recognised by the error text); Hostname is set per request as ServeHTTP does; Reset() before every request is the documented way of re-use - a value re-used WITHOUT Reset is not exercised",
 		"a panic of the handler reports no identity and is counted (label server-panic), not judged by this property",
 		"client side, 'the hostname' is the exact Host string of the request: two Host strings that differ only in port, letter case or a trailing dot are two origins, and a proof (or the token obtained with it) for one says nothing about the other; that the client must not send a bearer token to an origin that did not hand it out is asserted as the wire-level form of this (the token stands for the earlier proof); the client-side TokenTTL itself is not asserted",
 	)
